@@ -246,3 +246,149 @@ def replay_whitened(model, params, clause, info):
         bad = not (torch.allclose(out.mean, mean, atol=1e-8) and torch.allclose(out.covariance_matrix, cov, atol=1e-8))
     return {"violates": bool(bad), "detail": f"whitened q(f) with jitter_val={jit}: max mean diff {(out.mean - mean).abs().max().item():.2e}, max covariance diff {(out.covariance_matrix - cov).abs().max().item():.2e}",
             "entry": {"module": "contracts.C14_variational", "function": "replay_whitened", "args": [model, list(params), clause, info]}}
+
+
+# ------------------------------------------------------------------ unwhitened strategy (evaluation mode) ---------------------------
+UV = "gpytorch.variational.unwhitened_variational_strategy.UnwhitenedVariationalStrategy"
+
+
+@case("C14", clause="unwhitened_forward", expand=lambda ix: [(has_cov,) for has_cov in (True, False)], replay=lambda *a: replay_unwhitened(*a), functions=[f"{UV}.forward"], timeout=600)
+def unwhitened_forward(c, has_cov):
+    """evaluation mode, X != Z.  Callee contracts: K = Chol-operator of Kzz + jitter I with  K @ K.solve(R) = R  and  K.solve(R, L) = L @ K.solve(R);  S = R_s R_s^T
+    for the root the dependency returns.  Then with INV = [ (m - mu_Z)^T ; R_s^T ] Kzz^-1 Kzx (one two-sided solve):
+        mean       = mu_X + INV[0, :]                                   (= mu_X + Kxz Kzz^-1 (m - mu_Z))
+        covariance = Kxx - Kxz Kzz^-1 Kzx + INV[1:, :]^T INV[1:, :]     (= Kxx - Kxz Kzz^-1 (Kzz - S) Kzz^-1 Kzx: the property's closed form, un-whitened)"""
+    it, ctx = c.it, c.ctx
+    m, n, d, r = c.size("m"), c.size("n"), c.size("d"), c.size("r")
+    c.assume(z3.And(m.t >= 1, n.t >= 1, r.t >= 1))
+    Z, X = sym_tensor("Z", [m.t, d.t]), sym_tensor("X", [n.t, d.t])
+    joint = make_mvn(c, "joint", [], m.t + n.t)
+    mu, Sig = joint.fields["loc"], joint.fields["_covar"]
+    jit = c.real("jitter")
+    c.assume(jit.t >= 0)
+    rows = (1 + r.t) if has_cov else z3.IntVal(1)
+    INV = sym_tensor("two_sided_solve", [rows, n.t])
+    S1 = sym_tensor("solve_Kzx", [m.t, n.t])
+    solves, chol_args, fwd = [], [], []
+
+    def solve(rhs, lhs=None):
+        solves.append((rhs, lhs))
+        return INV if lhs is not None else S1
+
+    def plain_solve(t, it_, ctx_, a, k):
+        # max_cholesky_size / fast_computations branch: the operator of Kzz + jitter I is solved against directly; same callee contract
+        if not any(t is x for x in chol_args):
+            chol_args.append(t)
+        return solve(*a, **{("lhs" if kk == "left_tensor" else kk): v for kk, v in k.items()})
+
+    it.optable["tensor_method.solve"] = plain_solve
+
+    Kop = Stub("Chol(Kzz + jitter I)", methods={"solve": solve}, isa=("CholLinearOperator", "LinearOperator"))
+    Kop.methods["expand"] = lambda *a: Kop
+    Kop.attrs["shape"] = size_tuple([m.t, m.t])
+    Kop.methods["size"] = lambda dim=None: VNum(m.t) if dim is not None else size_tuple([m.t, m.t])
+    it.optable["linear_operator.operators.CholLinearOperator"] = lambda it_, ctx_, a, k: Kop
+    it.optable["linear_operator.operators.PsdSumLinearOperator"] = it.optable.get("linear_operator.operators.SumLinearOperator") or __import__("engine.optable_torch", fromlist=["T"]).T["linear_operator.operators.SumLinearOperator"]
+    model = Stub("model", methods={"forward": lambda *a, **k: (fwd.append(list(a)), joint)[1]}, isa=("ApproximateGP",))
+    from engine.values import VAtom
+    o = module_obj(c, UV, "strategy", _jitter_val=jit, training=FALSE)
+    o.fields["model"] = model
+
+    def hook(it_, ctx_, fi, args, kwargs):
+        if not isinstance(fi, tuple) and fi.name == "_cholesky_factor" and args and args[0] is o:
+            chol_args.append(args[1])
+            return Stub("L")
+        return NotImplemented
+
+    it.call_hooks.append(hook)
+    it.optable["hook.torch.equal"] = lambda it_, ctx_, a, k: FALSE
+    c.ctx.classattrs[("gpytorch.settings.skip_posterior_variances", "_state")] = FALSE
+    mv = sym_tensor("inducing_values", [m.t])
+    Rs = sym_tensor("root_of_S", [m.t, r.t])
+    if has_cov:
+        S = Stub("variational_inducing_covar", methods={"root_decomposition": lambda *a, **k: Stub("root_decomposition()", attrs={"root": Stub("root", methods={"to_dense": lambda: Rs})})}, isa=("LinearOperator",))
+    else:
+        S = NONE
+    res = it.call(ctx, c.getattr(o, "forward"), [X, Z, mv, S], {})
+    i, j, k_, p = ivar("i"), ivar("j"), ivar("k"), ivar("p")
+    c.assume(z3.And(i >= 0, i < n.t, j >= 0, j < n.t, k_ >= 0, k_ < m.t, p >= 0, p < r.t))
+    two = [s_ for s_ in solves if s_[1] is not None]
+    one = [s_ for s_ in solves if s_[1] is None]
+    ok = len(fwd) == 1 and len(chol_args) == 1 and len(two) == 1 and len(one) == 1
+    c.prove("unwhitened.one_joint_prior_one_factor_two_solves", z3.BoolVal(ok))
+    if not ok:
+        return
+    Kzz = chol_args[0]
+    a_, e_ = ivar("a"), ivar("e")
+    c.assume(z3.And(a_ >= 0, a_ < m.t + n.t, e_ >= 0, e_ < d.t))
+    fi = fwd[0][0] if fwd[0] else None
+    okf = isinstance(fi, type(Z)) and len(fi.dims) == 2
+    c.prove("unwhitened.joint_prior_evaluated_at_Z_then_X", z3.And(fi.dims[0].size == m.t + n.t, fi.at_dims([a_, e_]) == z3.If(a_ < m.t, Z.at([a_, e_]), X.at([a_ - m.t, e_]))) if okf else z3.BoolVal(False))
+    l_ = ivar("l")
+    c.assume(z3.And(l_ >= 0, l_ < m.t))
+    c.prove("unwhitened.factorised_matrix_is_Kzz_plus_jitter", Kzz.at_dims([k_, l_]) == Sig.at([k_, l_]) + z3.If(k_ == l_, jit.t, 0))
+    rhs2, lhs2 = two[0]
+    c.prove("unwhitened.two_sided_solve_rhs_is_Kzx", z3.And(z3.BoolVal(len(rhs2.dims) == 2), rhs2.at_dims([k_, i]) == Sig.at([k_, m.t + i])) if len(rhs2.dims) == 2 else z3.BoolVal(False))
+    good = len(lhs2.dims) == 2
+    c.prove("unwhitened.two_sided_solve_lhs_rows", z3.And(z3.BoolVal(good), lhs2.dims[0].size == rows, lhs2.dims[1].size == m.t, lhs2.at_dims([z3.IntVal(0), k_]) == mv.at([k_]) - mu.at([k_]),
+                                                          *([lhs2.at_dims([1 + p, k_]) == Rs.at([k_, p])] if has_cov else [])) if good else z3.BoolVal(False))
+    rhs1 = one[0][0]
+    c.prove("unwhitened.plain_solve_rhs_is_Kzx", z3.And(z3.BoolVal(len(rhs1.dims) == 2), rhs1.at_dims([k_, i]) == Sig.at([k_, m.t + i])) if len(rhs1.dims) == 2 else z3.BoolVal(False))
+    okr = isinstance(res, VObj) and res.cls.name == "MultivariateNormal"
+    c.prove("unwhitened.returns_MultivariateNormal", z3.BoolVal(okr))
+    if not okr:
+        return
+    mean = res.fields["loc"]
+    cov = res.fields.get("_covar")
+    cov = cov if cov is not None else res.fields.get("covariance_matrix")
+    c.prove("unwhitened.mean", z3.And(z3.BoolVal(len(mean.dims) == 1), mean.at_dims([i]) == mu.at([m.t + i]) + INV.at([z3.IntVal(0), i])) if len(mean.dims) == 1 else z3.BoolVal(False))
+    base = Sig.at([m.t + i, m.t + j]) - mk_sum(lambda q: Sig.at([q, m.t + i]) * S1.at([q, j]), m.t)
+    one = ivar("first_root_row")  # a named 1: sums are matched by template, and the code's slice start is a (constrained) symbol as well
+    c.assume(one == 1)
+    quad = mk_sum(lambda q: INV.at([one + q, i]) * INV.at([one + q, j]), r.t) if has_cov else z3.RealVal(0)
+    if cov is None or len(cov.dims) != 2:
+        c.fail("unwhitened.covariance_present", "no covariance")
+        return
+    c.prove("unwhitened.covariance", cov.at_dims([i, j]) == quad + base)
+
+
+def replay_unwhitened(model, params, clause, info):
+    """real unwhitened SVGP in evaluation mode against the closed form Kxx - Kxz Kzz^-1 (Kzz - S) Kzz^-1 Kzx (jitter written out)"""
+    import torch
+    import gpytorch
+    (has_cov,) = params
+    torch.manual_seed(2)
+    m, n = 4, 5
+    Z = torch.rand(m, 1, dtype=torch.double)
+    X = torch.rand(n, 1, dtype=torch.double) + 1.5
+    jit = 0.2
+
+    class SV(gpytorch.models.ApproximateGP):
+        def __init__(self):
+            vd = (gpytorch.variational.CholeskyVariationalDistribution if has_cov else gpytorch.variational.DeltaVariationalDistribution)(m)
+            super().__init__(gpytorch.variational.UnwhitenedVariationalStrategy(self, Z, vd, learn_inducing_locations=False, jitter_val=jit))
+            self.mean_module, self.covar_module = gpytorch.means.ConstantMean(), gpytorch.kernels.RBFKernel()
+
+        def forward(self, x):
+            return gpytorch.distributions.MultivariateNormal(self.mean_module(x), self.covar_module(x))
+
+    g = SV().double()
+    g.mean_module.constant.data.fill_(0.4)
+    vd = g.variational_strategy._variational_distribution
+    with torch.no_grad():
+        vd.variational_mean.copy_(torch.randn(m, dtype=torch.double))
+        if has_cov:
+            vd.chol_variational_covar.copy_(torch.randn(m, m, dtype=torch.double).tril() + 2 * torch.eye(m, dtype=torch.double))
+        g.variational_strategy.variational_params_initialized.fill_(1)
+    g.eval()
+    with torch.no_grad():
+        out = g(X)
+        Kzz = g.covar_module(Z).to_dense() + jit * torch.eye(m, dtype=torch.double)
+        Kzx, Kxx = g.covar_module(Z, X).to_dense(), g.covar_module(X).to_dense()
+        S = (vd.chol_variational_covar.tril() @ vd.chol_variational_covar.tril().T) if has_cov else torch.zeros(m, m, dtype=torch.double)
+        A = torch.linalg.solve(Kzz, Kzx)
+        mean = 0.4 + A.T @ (vd.variational_mean - 0.4)
+        cov = Kxx - Kzx.T @ A + A.T @ S @ A
+        bad = not (torch.allclose(out.mean, mean, atol=1e-8) and torch.allclose(out.covariance_matrix, cov, atol=1e-7))
+    return {"violates": bool(bad), "detail": f"unwhitened q(f) with jitter_val={jit}: max mean diff {(out.mean - mean).abs().max().item():.2e}, max covariance diff {(out.covariance_matrix - cov).abs().max().item():.2e}",
+            "entry": {"module": "contracts.C14_variational", "function": "replay_unwhitened", "args": [model, list(params), clause, info]}}
